@@ -20,7 +20,7 @@ var errGetter = errors.New("scripted getter failure")
 
 // scriptGetter: a trusted getter over one chain with a request log and failure injection.
 type scriptGetter struct {
-	softAll bool // GetByHeight serves headers that soft-fail every verification
+	softAll  bool // GetByHeight serves headers that soft-fail every verification
 	mu       sync.Mutex
 	chain    []*vhdr.Header // index h-1
 	log      []string       // "H:<height>", "R:<from>-<to>", "Head", "HeadT:<trusted>", "G"
@@ -35,6 +35,7 @@ type scriptGetter struct {
 var errBudget = errors.New("scripted getter: request budget exhausted")
 
 func (g *scriptGetter) add(s string) { g.mu.Lock(); g.log = append(g.log, s); g.mu.Unlock() }
+func (g *scriptGetter) logLen() int  { g.mu.Lock(); defer g.mu.Unlock(); return len(g.log) }
 func (g *scriptGetter) take() []string {
 	g.mu.Lock()
 	defer g.mu.Unlock()
